@@ -12,7 +12,7 @@ Loops carry the not-yet-consumed suffix `data[offset..]` next to `offset`; `fuel
 only makes the recursion structural.
 -/
 import SuccinctlyVerif.Spec.YamlKernels
-namespace SV.Yaml
+namespace SV.YamlK
 
 /-! ### lane primitives -/
 
@@ -307,4 +307,4 @@ def plainScalarTerminators (hasCr : Bool) (c : CharClass) : Nat :=
   let t := c.newlines ||| c.colons ||| c.hash
   if hasCr then t ||| c.carriageReturns else t
 
-end SV.Yaml
+end SV.YamlK
